@@ -26,7 +26,7 @@ SIZES = [2, 30, 50]          # expedited / normal / segmented transfer
 def inprocess_harness(ntasks):
     def harness():
         eth = pysym.module("ethercat")
-        model = coemodel.CoETerminal(48, 48, max_delay=1, delay_msgs=2)
+        model = coemodel.CoETerminal(48, 48, max_delay=3, delay_msgs=2)
         bus = busmodel.Bus(eth, [model])
         vals = {}
         for i in range(ntasks):
